@@ -211,4 +211,15 @@ class C01(Prop):
             acc.inconclusive_because("in-situ signer contract never evaluated")
 
 
+    def thread_pairs(self, ctx):
+        from ..monitors.threadops import api_pair
+
+        clock.set_zone("UTC")
+        a = {"type": 1, "id": "a1b2c3", "key": "18", "op": "turn_on_timer", "args": {"minutes": 90}}
+        b = {"type": 2, "id": "d4e5f6", "key": "27", "op": "set_position", "args": {"position": 57}, "family": "shutter"}
+        c = {"type": 1, "id": "0a0b0c", "key": "03", "op": "set_device_name", "args": {"name": "Boiler upstairs"}}
+        return [api_pair("control_device (one thread) || set_position (another thread)", a, b),
+                api_pair("set_device_name || control_device", c, a)]
+
+
 PROP = C01()
